@@ -327,6 +327,24 @@ func (g *c09Gen) action() bool {
 	case k == 26:
 		// a match case binds the name of a variable for the time of its body (an expression or
 		// a block); afterwards an assignment to that name addresses the variable again
+		if g.b("bindcontainer") {
+			// a pattern name bound to a container (a variable's, an element's, a member of the
+			// document): an assignment to the name changes the name, not the matched place
+			subj := rapid.SampledFrom([]*ast.Node{ast.Id("v2"), ast.Id("v3"), ast.Dollar(), ast.Arr(ast.Id("v2"), ast.Id("v3")), ast.Mem(ast.Id("v3"), "b"), ast.Idx(ast.Id("v2"), ast.Num("0"))}).Draw(g.t, "bindsubj").Clone()
+			pat := ast.Id("mb")
+			asg := []*ast.Node{ast.ExprS(ast.Set(ast.Id("mb"), ast.Str("rebound")))}
+			if subj.K == "arr" {
+				pat = ast.Arr(ast.Id("ma"), ast.Id("mb"))
+				asg = append(asg, ast.ExprS(ast.Asg("+=", ast.Id("ma"), ast.Num("1"))))
+			}
+			if g.b("bindexprbody") {
+				stmts = append(stmts, ast.ExprS(ast.Set(ast.Id("tmp"), ast.Match(subj, ast.Case(ast.Set(ast.Id("mb"), ast.Num("7")), pat)))))
+			} else {
+				stmts = append(stmts, ast.ExprS(ast.Set(ast.Id("tmp"), ast.Match(subj, ast.Case(ast.Block(asg...), pat)))))
+			}
+			label = "assign-to-a-pattern-name-bound-to-a-container"
+			break
+		}
 		v := c09Vars[g.n(0, 1, "mv")]
 		body := ast.Bin("+", ast.Id(v), ast.Id("mw"))
 		if g.b("mblock") {
